@@ -147,15 +147,9 @@ func GetDocCommentOn(file *ast.File, obj types.Object) (cg *ast.CommentGroup, cl
 					}
 				}
 			}
-		case *ast.File:
-			if n.Doc != nil {
-				return n.Doc, func() {
-					if len(n.Doc.List) == 0 {
-						n.Doc = nil
-					}
-				}
-			}
 		}
+		// The file's doc comment (the package documentation) belongs to no declaration: the lookup
+		// ends at the outermost declaration.
 	}
 	return nil, func() {}
 }
